@@ -91,6 +91,28 @@ func vh_C12_HandlerDefault() {
 	vfReach("end")
 }
 
+// the process-wide default Handler (Handler.GetDefault(), the exported utility instance itself) is a Handler like any
+// other: work posted before its Close runs, work posted after Close returned is dropped. (Closing it is the last thing
+// this harness does; the Close is wrapped because a native replay process may already have closed it.)
+func vh_C12_DefaultHandlerClose() {
+	h := Handler.GetDefault()
+	n := 0
+	before := vfChoose("work-before-close", 2) == 1
+	if before {
+		h.Post(func() { n++ })
+		vfQuiesce()
+	}
+	if before {
+		vfAssert("lemma/default-handler-ran-work-posted-before-close", n == 1) // a lemma: a native replay process may have closed it earlier
+	}
+	vfPanics(func() { h.Close() })
+	ran := false
+	vfNoPanic("nopanic-close-post", func() { h.Post(func() { ran = true }) })
+	vfQuiesce()
+	vfAssert("post-after-close-dropped", !ran)
+	vfReach("end")
+}
+
 func vh_C12_Actor() {
 	capacity := vfRange("cap", 0, 1)
 	senders := vfRange("senders", 1, c12Senders())
